@@ -50,6 +50,7 @@ class AcctGen(object):
         self.script = []
         self.mids = {}
         self.spread_regime = None
+        self.p_sizes = profile.get("p_sizes", 0.0)
 
     def new_quote(self, i, big=False, exact=False):
         rng = self.rng
@@ -72,7 +73,11 @@ class AcctGen(object):
         else:
             sp = rng.choice([0, 0] + SPREADS)
         self.mids[i] = mid
-        return {"op": "quote", "c": i, "bid": mid * (1 - sp / 2), "ask": mid * (1 + sp / 2)}
+        q = {"op": "quote", "c": i, "bid": mid * (1 - sp / 2), "ask": mid * (1 + sp / 2)}
+        if self.p_sizes and rng.random() < self.p_sizes:
+            # the quote carries finite displayed sizes (a legal, rarely used field: execution is at the quote whatever the size)
+            q["bsz"], q["asz"] = rng.choice([0.0, 1.0, 10.0, 150.0]), rng.choice([0.0, 1.0, 10.0, 150.0])
+        return q
 
     def trade(self, i):
         rng = self.rng
